@@ -259,6 +259,72 @@ pub fn typed_index_program() -> Prog {
     Prog { main, ..Default::default() }
 }
 
+/// REDIM: a dynamic array gets a new layout; its old content is gone, the new bounds hold, distinct index
+/// tuples are distinct cells again. Every cell is written and the LAST one read right before the second REDIM,
+/// and the first access afterwards uses exactly those subscripts (when they still exist).
+pub fn redim_programs() -> Vec<(Prog, String)> {
+    let sh = |dims: &[(i32, i32)]| Shape { dims: dims.to_vec(), explicit: true };
+    // (lower bound, extent) per dimension
+    let pairs: Vec<(Shape, Shape)> = vec![
+        (sh(&[(1, 3)]), sh(&[(2, 4)])),
+        (sh(&[(1, 3)]), sh(&[(1, 3)])),
+        (sh(&[(-2, 3)]), sh(&[(0, 3)])),
+        (sh(&[(0, 3), (0, 2)]), sh(&[(0, 3), (0, 4)])),
+        (sh(&[(1, 4), (1, 2)]), sh(&[(1, 2), (1, 4)])),
+        (sh(&[(1, 2), (1, 2)]), sh(&[(0, 3), (1, 2)])),
+        (sh(&[(1, 2), (1, 2), (1, 2)]), sh(&[(1, 2), (1, 3), (1, 2)])),
+    ];
+    let mut out = vec![];
+    for (s1, s2) in pairs {
+        for elem in [Elem::Scalar(Ty::Int), Elem::Scalar(Ty::Str), Elem::Scalar(Ty::Double)] {
+            for probe_gone in [false, true] {
+                let mut b = B::new();
+                let redim = |b: &mut B, shape: &Shape| -> Stmt {
+                    let mut d = dim_stmt(b, "A", shape, elem);
+                    if let K::Dim { redim, .. } = &mut d.k {
+                        *redim = true;
+                    }
+                    d
+                };
+                let mut main = vec![redim(&mut b, &s1)];
+                let c1 = cells(&s1);
+                for (k, cell) in c1.iter().enumerate() {
+                    for (loc, val) in cell_writes("A", elem, cell, k as i64 + 1) {
+                        main.push(b.assign(loc, val));
+                    }
+                }
+                let last = c1.last().unwrap().clone();
+                let last_loc = Expr::Index(arr_name("A", elem), idx(&last));
+                main.push(b.print(vec![st("last"), st("["), last_loc.clone(), st("]")]));
+                main.push(redim(&mut b, &s2));
+                let c2 = cells(&s2);
+                let still = c2.contains(&last);
+                if still {
+                    // the same subscripts as just before the REDIM: a fresh, empty cell
+                    main.push(b.print(vec![st("same"), st("["), last_loc.clone(), st("]")]));
+                }
+                for (k, cell) in c2.iter().enumerate() {
+                    for (loc, val) in cell_writes("A", elem, cell, 30 + k as i64) {
+                        main.push(b.assign(loc, val));
+                    }
+                }
+                main.extend(dump(&mut b, "A", elem, &s2, "r"));
+                let an = arr_name("A", elem);
+                for d in 1..=s2.dims.len() {
+                    main.push(b.print(vec![builtin("LBOUND", vec![var(&an), num(d as i64)]), builtin("UBOUND", vec![var(&an), num(d as i64)])]));
+                }
+                if probe_gone {
+                    // a cell of the old layout that the new one does not have: Subscript out of range
+                    let Some(gone) = c1.iter().find(|c| !c2.contains(c)) else { continue };
+                    main.push(b.print(vec![st("gone"), Expr::Index(arr_name("A", elem), idx(gone))]));
+                }
+                out.push((Prog { main, ..Default::default() }, format!("REDIM {:?} -> {:?} {:?}{}", s1.dims, s2.dims, elem, if probe_gone { " + a cell of the old layout" } else { "" })));
+            }
+        }
+    }
+    out
+}
+
 /// Subscripts that are variables first used in the subscript itself (implicit variables, value 0), in every
 /// kind of element path: plain element, element of an array of records, nested record, fixed-length string.
 pub fn implicit_index_program() -> Prog {
